@@ -25,6 +25,7 @@ type cfgEntry struct {
 	name     string
 	omitName bool // the entry has no `name` key at all
 	addr     string
+	path     string // /handler/<case token>
 	ops      []string
 }
 
@@ -66,7 +67,13 @@ func configText(addr string, port int, entries []cfgEntry, scopes bool, asJSON b
 	return configTextWith(addr, port, entries, scopes, asJSON, sysUserConnTimeout, sysGateway, sysINI)
 }
 
-func configTextWith(addr string, port int, entries []cfgEntry, scopes bool, asJSON bool, sysUserConnTimeout int, gw *gwCfg, sysINI bool) string {
+func configTextWith(addr string, port int, entries0 []cfgEntry, scopes bool, asJSON bool, sysUserConnTimeout int, gw *gwCfg, sysINI bool) string {
+	entries := append([]cfgEntry(nil), entries0...)
+	for i := range entries {
+		if entries[i].path == "" {
+			panic("cfgEntry without a case path")
+		}
+	}
 	if sysINI {
 		var b strings.Builder
 		fmt.Fprintf(&b, "[common]\nbind_addr = %s\nbind_port = %d\nproxy_bind_addr = %s\nuser_conn_timeout = %d\ntcp_mux = false\n", addr, port, addr, sysUserConnTimeout)
@@ -75,7 +82,7 @@ func configTextWith(addr string, port int, entries []cfgEntry, scopes bool, asJS
 			b.WriteString("authenticate_heartbeats = true\nauthenticate_new_work_conns = true\n")
 		}
 		for _, e := range entries {
-			fmt.Fprintf(&b, "\n[plugin.%s]\naddr = %s\npath = /handler\nops = %s\n", e.name, e.addr, strings.Join(e.ops, ","))
+			fmt.Fprintf(&b, "\n[plugin.%s]\naddr = %s\npath = %s\nops = %s\n", e.name, e.addr, e.path, strings.Join(e.ops, ","))
 		}
 		return b.String()
 	}
@@ -89,7 +96,7 @@ func configTextWith(addr string, port int, entries []cfgEntry, scopes bool, asJS
 		}
 		var ps []map[string]any
 		for _, e := range entries {
-			p := map[string]any{"addr": e.addr, "path": "/handler", "ops": e.ops}
+			p := map[string]any{"addr": e.addr, "path": e.path, "ops": e.ops}
 			if e.ops == nil {
 				p["ops"] = []string{}
 			}
@@ -122,7 +129,7 @@ func configTextWith(addr string, port int, entries []cfgEntry, scopes bool, asJS
 		if !e.omitName {
 			fmt.Fprintf(&b, "name = %s\n", tomlStr(e.name))
 		}
-		fmt.Fprintf(&b, "addr = %s\npath = \"/handler\"\nops = %s\n", tomlStr(e.addr), tomlStrs(e.ops))
+		fmt.Fprintf(&b, "addr = %s\npath = %s\nops = %s\n", tomlStr(e.addr), tomlStr(e.path), tomlStrs(e.ops))
 	}
 	return b.String()
 }
